@@ -415,6 +415,7 @@ static void c17_gen(plan_t *p, rng_t *r, int tier) {
 	int faulty = rng_chance(r, 250);
 	static const int lens[] = { 0, 1, 5, 14, 15, 16, 17, 30, 31, 32, 33, 47, 48, 49, 64, 100, 200, 250 };
 	item_set(&p->cfg, "faulty", faulty);
+	item_set(&p->cfg, "inplace", rng_chance(r, 500)); /* allocator front: realloc grows in place inside 16 byte granules / always moves */
 	item_set(&p->sched, "policy", POL_RANDOM);
 	item_set(&p->sched, "seed", 1);
 	item_set(&p->sched, "p", 0);
